@@ -122,10 +122,12 @@ type PathOpts struct {
 	NoInline bool     // treat every call as opaque
 	Inline   []string // with NoInline: callees (short name suffixes) that are inlined nevertheless
 	MaxPaths int
+	Sites    bool // emit EvSite events (constructs that can panic)
+	Exact    bool // Roots are exact short names
 }
 
 func (o PathOpts) key() string {
-	return fmt.Sprintf("%v|%v|%v|%d", o.Roots, o.NoInline, o.Inline, o.MaxPaths)
+	return fmt.Sprintf("%v|%v|%v|%d|%v|%v", o.Roots, o.NoInline, o.Inline, o.MaxPaths, o.Sites, o.Exact)
 }
 
 // Paths enumerates (once) all paths of the package given relative to the module root.
@@ -145,6 +147,7 @@ func (a *Analysis) PathsOpt(rel string, opt PathOpts) ([]*Path, error) {
 	if opt.MaxPaths > 0 {
 		w.MaxPaths = opt.MaxPaths
 	}
+	w.Sites = opt.Sites
 	if opt.NoInline {
 		w.Inline = func(caller, callee *FuncInfo) bool {
 			if caller.Pkg != callee.Pkg {
@@ -163,7 +166,7 @@ func (a *Analysis) PathsOpt(rel string, opt PathOpts) ([]*Path, error) {
 			return true
 		}
 		for _, r := range opt.Roots {
-			if strings.HasSuffix(f.Name(), r) {
+			if (opt.Exact && f.Name() == r) || (!opt.Exact && strings.HasSuffix(f.Name(), r)) {
 				return true
 			}
 		}
